@@ -145,7 +145,24 @@ R14 = {
  "C19": "directory-mode dumps give every cluster / virtual host its own file",
  "C20": "raw extension-config text is dumped unchanged only when a token scan finds no private-key name in it",
 }
-GENERIC = "generic hygiene over the property's packages: no loop-variable address escapes its iteration, every mutex acquired in a function is released on every path to its return and not re-acquired in a callee, a field accessed through sync/atomic is never accessed plainly outside construction (frozen exceptions), storage given back to a pool is not returned or stored, no append onto a loop-invariant slice whose result is kept, no signed remainder of a converted unsigned 64-bit value or of a wrapping signed 32-bit counter"
+R15 = {
+ "C01": "a decoded frame retains the frame, not the rest of the read buffer; an HTTP/2 header block is HPACK-decoded once, after all of it arrived",
+ "C02": "an upstream stream is destroyed before its response is handed over",
+ "C03": "the body and trailer parts of a message are sent whenever they are present, so the end of a message is never skipped; the phase machine ends a request only where the stream was cleaned",
+ "C06": "the EDF scheduler is built before the balancer is handed out",
+ "C07": "a decoded frame retains the frame, not the rest of the read buffer",
+ "C08": "while an HTTP/2 header block is open only a CONTINUATION passes the frame-order check",
+ "C09": "an HTTP/1 client connection is kept only when reader and dispatched buffer are established empty; an upstream stream is destroyed before its response is handed over",
+ "C10": "the phase machine ends a request only where the stream was cleaned (gauges given back)",
+ "C11": "a taken inherited socket is marked in the caller's slice, never removed by re-slicing",
+ "C12": "the dump mark is taken before the configuration is snapshotted, so an update during a dump is written by the next one",
+ "C13": "a connection pool reports the tls hash it was created under",
+ "C15": "a host published again with new labels supersedes the known one",
+ "C17": "a timeout in the retry window is not swallowed (retry flag consumed where the decision is taken)",
+ "C18": "END_STREAM goes out with the last granted byte of the body",
+ "C19": "the dump mark is taken before the configuration is snapshotted",
+}
+GENERIC = "generic hygiene over the property's packages: no loop-variable address escapes its iteration, every mutex acquired in a function is released on every path to its return and not re-acquired in a callee, a field accessed through sync/atomic is never accessed plainly outside construction (frozen exceptions), storage given back to a pool is not returned or stored, no append onto a loop-invariant slice whose result is kept, no signed remainder of a converted unsigned 64-bit value or of a wrapping signed 32-bit counter, no remainder of a 32-bit sum with an unreduced atomic counter"
 props = [json.loads(l)['id'] for l in open('/verif/properties.jsonl')]
 checks, na = [], []
 for p in props:
@@ -162,6 +179,8 @@ for p in props:
         dec = dec + "; " + R13[p]
     if p in R14:
         dec = dec + "; " + R14[p]
+    if p in R15:
+        dec = dec + "; " + R15[p]
     dec = dec + "; " + GENERIC
     tech = tech + ", lock-balance and atomic-discipline dataflow"
     if p in R8:
